@@ -1137,8 +1137,14 @@ Definition branch_params (cond : expr) : M (option pyval * string * pyval) :=
       guard (String.eqb op "==") EValidation;;;
       match l with
       | EId reg => v <- eval0 r false (Some KInt);; ret (None, reg, v)
-      | EIndexE (EId reg) idx =>
+      | EIndexE c0 idx =>
+          (* a single bit only: sets and ranges are rejected as in the bare form below *)
+          match idx with
+          | IdxSet _ | IdxList (IRange _ _ _ :: _) => verr
+          | _ => ret tt
+          end;;;
           i <- literal_index idx;;
+          reg <- (match c0 with EId reg => ret reg | _ => ierr KAttr end);;
           v <- eval0 r false None;;
           ne <- lift (py_binop OpNe v (VInt 0));;
           ret (Some i, reg, ne)
@@ -1284,6 +1290,7 @@ Definition visit_switch (target : expr) (cases : list (list expr * list stmt)) (
 (* visitor._visit_alias_statement *)
 Definition visit_alias (name : string) (value : expr) : M (list stmt) :=
   s <- getst;;
+  guard (negb (in_some_function s)) EValidation;;;       (* aliases are global: not inside a subroutine body *)
   guard (negb (check_in_scope s name)) EValidation;;;
   modify (fun s => level_add s name);;;
   '(aliased, idx) <- (match value with
